@@ -26,7 +26,9 @@ impl VerifStream for PipeEnd {
         let g = self.0.lock().unwrap_or_else(|e| e.into_inner());
         match g.last_addr {
             0 => crate::util::phys::PhysAddr::None,
-            port => crate::util::phys::PhysAddr::Udp(std::net::SocketAddr::from(([127, 0, 0, 1], port))),
+            port => {
+                crate::util::phys::PhysAddr::Udp(std::net::SocketAddr::from(([127, 0, 0, 1], port)))
+            }
         }
     }
 }
